@@ -110,6 +110,8 @@ def run(ctx):
         ctx.ob('2f later-commits-refused', 'K1-must-pass', cr.path, 'with a background error recorded every path through commit_raw returns Error::Background', w is None, '' if w is None else lib.short_path(cr, w))
     # ------------------------------------------------------------ 2g. which I/O error may be taken for "end of data"
     shared.eof_is_the_only_end_of_data(ctx, '2')
+    shared.torn_record_not_handed_over(ctx, '2')        # a failed append never reaches the non-validating applier
+    shared.failed_cleanup_keeps_queue_order(ctx, '2')   # a failed truncation does not let newer logs be truncated first
     # ------------------------------------------------------------ 3. informational: I/O calls outside try_io!
     out = []
     for b in F.bodies.values():
